@@ -43,7 +43,18 @@ func (e *Entrypoint) Validate() error {
 	if strings.Contains(e.Name, "_") {
 		return ErrUnderlineInEntrypointName
 	}
+	if !IsPathElement(e.Name) {
+		return ErrNameIsNotAPathElement
+	}
 	return nil
+}
+
+// IsPathElement tells whether name can be one element of a metadata key:
+// application, entrypoint and node names are joined into paths like
+// /deploy/{appname}/{entrypoint}/{nodename}/{workloadID}, and queries by prefix
+// are only exact when each of them is exactly one element
+func IsPathElement(name string) bool {
+	return !strings.Contains(name, "/") && name != "." && name != ".."
 }
 
 // Bind define a single bind
